@@ -169,9 +169,8 @@ def mechanical(ctx, P, s, N, fn, graph, operand, extra):
                 return True, "next() on an iterator over `%s`, whose length is constrained to %s by the dominating guards" % (X, sorted(ls))
             return False, "first element of `%s` unwrapped although guards allow it to be empty: %s" % (X, GD.cond_strings(conds))
         # X.unwrap() after `if X.is_none() { return }`
-        for none_fn in ("Option::is_none",):
-            if GD.holds(conds, "%s(%s)" % (none_fn, rs), False):
-                return True, "dominated by an early return when the option is None"
+        if GD.holds(conds, "let v1::Some($)=%s" % rs, True):
+            return True, "dominated by an early return when the option is None"
         # field.name.unwrap() where every element of the mapped collection has is_some(name)
         m = re.fullmatch(r"(C\d+_\d+|elem\((.+)\))\.(name|0)", rs)
         if m:
@@ -179,18 +178,18 @@ def mechanical(ctx, P, s, N, fn, graph, operand, extra):
                 if c[0] == "arm":
                     # (all_named, all_unnamed) tuple match: arm (true,false)
                     sc, pat = show(c[1]), c[2]
-                    if pat.replace(" ", "") in ("(true,false)",) and sc.startswith("(Iterator::all(") and "Option::is_some(" in sc.split(",|")[1 if ",|" in sc else 0]:
+                    if pat.replace(" ", "") in ("(true,false)",) and sc.startswith("(Iterator::all(") and "let v1::Some($)=" in sc.split(",|")[1 if ",|" in sc else 0]:
                         return True, "inside the arm where every element satisfies is_some(name): " + sc[:120]
                 else:
                     pol, t = c
                     st = show(t)
-                    if pol and st.startswith("Iterator::all(") and "Option::is_some(C1_0." in st:
+                    if pol and st.startswith("Iterator::all(") and "{let v1::Some($)=C1_0." in st:
                         return True, "dominated by `all(|f| f.name.is_some())` over the mapped field list"
             return False, "name unwrapped without a dominating all-named check; conditions: %s" % GD.cond_strings(conds)
         # Path::ident(..).expect after is_none early return
         if "Path::ident(" in rs:
             for c in GD.flatten(conds):
-                if c[0] != "arm" and not c[0] and show(c[1]).startswith("Option::is_none(Path::ident("):
+                if c[0] != "arm" and c[0] is True and show(c[1]).startswith("let v1::Some($)=Path::ident("):
                     return True, "dominated by an early return when the path has no ident"
         return None
     if s.kind == "panic-macro" and s.callee == "unreachable":
